@@ -34,8 +34,9 @@ def _norm_tokens(s):
     return " ".join(str(s).split())
 
 
-def resolve(a, raw_tag="R"):
-    """real Atoms -> Model"""
+def resolve(a, raw_tag="R", ids=None):
+    """real Atoms -> Model. ids: optional list of atom ids to use instead of the charges (for atoms whose charge is
+    not unique, e.g. the copies of one replacement atom inserted for several matches)"""
     m = Model()
     m.cell = None if a.cell is None else np.array(a.cell, dtype=float)
     n = len(a.positions)
@@ -48,7 +49,7 @@ def resolve(a, raw_tag="R"):
         def pick(tab):
             return tab[t] if 0 <= t < len(tab) else MISSING
         m.atoms.append({
-            "id": float(a.charges[i]), "pos": np.array(a.positions[i], dtype=float), "el": str(pick(els)), "label": str(pick(labs)),
+            "id": (float(a.charges[i]) if ids is None else ids[i]), "pos": np.array(a.positions[i], dtype=float), "el": str(pick(els)), "label": str(pick(labs)),
             "mass": (float(masses[t]) if 0 <= t < len(masses) else MISSING),
             "pair": (None if len(pairs) == 0 else (_norm_tokens(pairs[t]) if 0 <= t < len(pairs) else MISSING)),
             "charge": float(a.charges[i]), "group": int(a.groups[i]),
@@ -56,7 +57,7 @@ def resolve(a, raw_tag="R"):
         })
     ids = [x["id"] for x in m.atoms]
     for kind, arrname, w in KINDS:
-        arr = np.asarray(getattr(a, arrname))
+        arr = np.asarray(getattr(a, arrname)).reshape(-1, w)
         types = np.asarray(getattr(a, "%s_types" % kind))
         table = list(getattr(a, "%s_type_coeffs" % kind))
         xlk = list(getattr(a, "extra_%s_labels" % kind))
@@ -159,7 +160,8 @@ def _canon(kind, tup):
     return min(tuple(tup), r, key=lambda t: [repr(x) for x in t])
 
 
-def compare(real, pred, pos_tol=1e-9, mod_cell=None, check_pos=True, ordered=True, fields=("el", "label", "mass", "pair", "charge", "group", "extras")):
+def compare(real, pred, pos_tol=1e-9, mod_cell=None, check_pos=True, ordered=True, fields=("el", "label", "mass", "pair", "charge", "group", "extras"),
+            term_extras=True, mass_tol=1e-9):
     """-> list of (field, message). real/pred: Model. Raw-type tokens are compared up to a bijection per kind."""
     bad = []
     rid, pid = real.ids(), pred.ids()
@@ -183,7 +185,7 @@ def compare(real, pred, pos_tol=1e-9, mod_cell=None, check_pos=True, ordered=Tru
             for f in fields:
                 x, y = a[f], b[f]
                 if f == "mass" and x != MISSING and y != MISSING:
-                    ok = abs(x - y) <= 1e-9 * max(1.0, abs(y))
+                    ok = abs(x - y) <= mass_tol * max(1.0, abs(y))
                 else:
                     ok = x == y
                 if not ok:
@@ -195,13 +197,13 @@ def compare(real, pred, pos_tol=1e-9, mod_cell=None, check_pos=True, ordered=Tru
                     d = (fr - np.round(fr)).dot(mod_cell)
                 if not np.all(np.abs(d) <= pos_tol):
                     bad.append(("pos", "atom %s: position %s, expected %s" % (a["id"], a["pos"], b["pos"])))
-    if list(real.xlabels["atom"]) != list(pred.xlabels["atom"]):
+    if "extras" in fields and list(real.xlabels["atom"]) != list(pred.xlabels["atom"]):
         bad.append(("extra_labels", "extra atom labels %s, expected %s" % (real.xlabels["atom"], pred.xlabels["atom"])))
     for k in KNAMES:
-        if list(real.xlabels[k]) != list(pred.xlabels[k]):
+        if term_extras and list(real.xlabels[k]) != list(pred.xlabels[k]):
             bad.append(("extra_labels", "extra %s labels %s, expected %s" % (k, real.xlabels[k], pred.xlabels[k])))
-        rt = [(_canon(k, t[0]), t[1], tuple(sorted(t[2].items()))) for t in real.terms[k]]
-        pt = [(_canon(k, t[0]), t[1], tuple(sorted(t[2].items()))) for t in pred.terms[k]]
+        rt = [(_canon(k, t[0]), t[1], tuple(sorted(t[2].items())) if term_extras else ()) for t in real.terms[k]]
+        pt = [(_canon(k, t[0]), t[1], tuple(sorted(t[2].items())) if term_extras else ()) for t in pred.terms[k]]
         # text-typed terms: exact multiset; raw-typed: multiset of (tuple, extras) + consistent bijection of raw tokens
         rkey = sorted((repr(t[0]), repr(t[2])) for t in rt)
         pkey = sorted((repr(t[0]), repr(t[2])) for t in pt)
@@ -239,3 +241,36 @@ def _multiset(xs):
 def _short(xs, n=8):
     xs = list(xs)
     return str(xs[:n]) + ("...(%d)" % len(xs) if len(xs) > n else "")
+
+
+def from_lammps(d, ids=None, raw_tag="R"):
+    """Model of what a LAMMPS data file (parsed by vmon.oracle.lmpread, full style) states. Elements are not in the file."""
+    m = Model()
+    for i, row in enumerate(d["atoms"]):
+        t = row["type"]
+        mass = d["masses"].get(t, (MISSING, MISSING))
+        pc = d["coeffs"]["Pair Coeffs"]
+        if "Pair Coeffs" not in d["sections"]:
+            pair = None
+        elif t in pc:
+            toks, com = pc[t]
+            pair = " ".join(toks) + ((" # " + " ".join(com.split())) if com else "")
+        else:
+            pair = MISSING
+        m.atoms.append({"id": row["q"] if ids is None else ids[i], "pos": np.array(row["pos"], float), "el": None, "label": mass[1], "mass": mass[0], "pair": pair,
+                        "charge": row["q"], "group": (row["mol"] - 1) if row["mol"] is not None else None, "extras": {}})
+    idl = [a["id"] for a in m.atoms]
+    n = len(idl)
+    for kind, sec, csec in (("bond", "Bonds", "Bond Coeffs"), ("angle", "Angles", "Angle Coeffs"), ("dihedral", "Dihedrals", "Dihedral Coeffs"), ("improper", "Impropers", "Improper Coeffs")):
+        table = d["coeffs"][csec]
+        for row in d["terms"][sec]:
+            t = row["type"]
+            if csec not in d["sections"]:
+                tok = (raw_tag, t - 1)
+            elif t in table:
+                toks, com = table[t]
+                tok = " ".join(toks) + ((" # " + " ".join(com.split())) if com else "")
+            else:
+                tok = MISSING
+            m.terms[kind].append((tuple(idl[x - 1] if 1 <= x <= n else ("bad-index", x) for x in row["atoms"]), tok, {}))
+    return m
